@@ -342,10 +342,9 @@ Proof.
 Qed.
 
 (* ---------- closure under all moves ---------- *)
-Lemma SI_gmv pc a b : gmv pc a b -> SI a -> SI b.
+Lemma SI_omv pc a b : omv hstate pc a b -> SI a -> SI b.
 Proof.
   intros M H. destruct M.
-  - eapply SI_mv; eassumption.
   - eapply SI_view; [|exact H]. reflexivity.
   - destruct H. constructor; unfold note; sc_cbn; try assumption; try discriminate.
   - eapply SI_view; [|exact H]. unfold view. sc_rw. reflexivity.
@@ -357,6 +356,14 @@ Proof.
   - eapply SI_view; [|exact H]. reflexivity.
   - eapply SI_view; [|exact H]. reflexivity.
 Qed.
+
+Lemma SI_gmv pc a b : gmv pc a b -> SI a -> SI b.
+Proof. intros M H. destruct M; [eapply SI_mv | eapply SI_omv]; eassumption. Qed.
+
+Lemma SI_mvs l a b : mvs hstate dec_field cfg Q l a b -> SI a -> SI b.
+Proof. intros M. induction M; intro HS; [assumption|]. eauto using SI_mv. Qed.
+Lemma SI_omvs pc a b : omvs hstate pc a b -> SI a -> SI b.
+Proof. intros M. induction M; intro HS; [assumption|]. eauto using SI_omv. Qed.
 
 (* ---------- every event list ---------- *)
 Hypothesis HQ_new : forall id w k t, Q (set_orig_started (new_stream id w) k t).
